@@ -74,6 +74,12 @@ class QueryFamily:
                 rows = parse_rows(io[k])
                 if isinstance(rows, str) or (collections.Counter(rows) - collections.Counter(srows)):
                     ok = False
+            # control: with the REFERENCE retrieval (every compatible entry) in place of IndexedCache.retrieve the cached
+            # evaluations return the specified row SET - the loss is due to retrieval, not to what the caches hold
+            for k in ('onref', 'onref2'):
+                rows = parse_rows(io.get(k, 'X'))
+                if isinstance(rows, str) or set(rows) != set(srows):
+                    ok = False
             if ok:
                 return 'C05-wildcard-retrieval'
         # C16-repeated-element-dedup: an inner collection repeats an element and the condition has a disjunction: the
